@@ -9,5 +9,7 @@ mkdir -p $V/work/bin $V/evidence $V/replays
 (cd /repo && $V/work/bin/mkoverlay -repo /repo -inject $V/inject -work $V/work)
 (cd $V/harness && go build -tags verif -overlay $V/work/overlay.json -o $V/work/bin/vcheck ./cmd/vcheck)
 (cd /repo && go build -overlay $V/work/overlay_plain.json -o $V/work/bin/goawk .)
+# warm the build cache for the supplementary -race pass of C19 (best effort)
+(cd $V/harness && CGO_ENABLED=1 go build -race -tags verif -overlay $V/work/overlay.json -o $V/work/bin/vrace ./cmd/vrace) || echo "note: -race build unavailable"
 if [ -f $V/chelper/cprintf.c ]; then gcc -O1 -o $V/work/bin/cprintf $V/chelper/cprintf.c; fi
 echo "setup ok"
